@@ -495,6 +495,9 @@ def stepImutes (cfg : Cfg) (σ : Inst) (op obs : List String) : Option (Inst × 
 def stepSil (cfg : Cfg) (σ : Inst) (op obs : List String) : Option (Inst × List Msg) :=
   match op with
   | "imutes" :: _ => stepImutes cfg σ op obs
+  -- a Mutes call whose context is already cancelled (client gone, flush deadline passed): Silences.Query does not
+  -- consult the context, the call is an ordinary one
+  | "cmutes" :: rest => (stepCommon cfg σ ("mutes" :: rest) obs).map fun (σ', m) => (σ', m ++ [.tag "mutes:cancelled-context"])
   | _ => stepCommon cfg σ op obs
 
 end Driver.Sil
